@@ -288,7 +288,12 @@ fn build_explicit(m: &Explicit) -> (Transaction, Vec<TxOut>) {
             witness: TxInWitness::default(),
         })
         .collect();
-    let (issued, token) = ins[0].issuance_ids();
+    let (issued, token) = if ins[0].has_issuance() {
+        let (a, t) = crate::props::c11::ref_ids(&crate::oracle::model::from_txin(&ins[0]));
+        (AssetId::from_byte_array(a), AssetId::from_byte_array(t))
+    } else {
+        ins[0].issuance_ids()
+    };
     let aid = |a: u8| match a {
         0 => c04::asset_a(),
         1 => c04::asset_b(),
